@@ -128,4 +128,140 @@ theorem gf2Inv_ok {w : Nat} (hw0 : 0 < w) (m : Nat) (md a : List Nat)
   rw [heq]
   exact this
 
+
+/-! ## ppMinPolyMod: the sequence -/
+
+/-- k-fold `t ↦ t·a mod md` -/
+def ppIter (a md : Nat) : Nat → Nat → Nat
+  | 0, t => t
+  | k + 1, t => ppIter a md k (pmod (clmul t a) md)
+
+/-- the bit sequence handed to ppMinPoly, as a closed recursion: bit j (j < n) is the constant term of
+    the (2l − 1 − j)-fold iterate started at a, i.e. of a^{2l−j} mod md -/
+def ppSeqBits (a md l : Nat) : Nat → Nat
+  | 0 => 0
+  | n + 1 => ppSeqBits a md l n ||| ((ppIter a md (2 * l - 1 - n) a % 2) <<< n)
+
+theorem testBit_bit_shl (b c j : Nat) (hb : b < 2) :
+    (b <<< c).testBit j = (decide (j = c) && decide (b = 1)) := by
+  rw [Nat.testBit_shiftLeft]
+  have : b = 0 ∨ b = 1 := by omega
+  rcases this with rfl | rfl
+  · simp
+  · by_cases h : j = c
+    · subst h; simp
+    · by_cases h2 : j ≥ c
+      · have hk : j - c ≠ 0 := by omega
+        have : Nat.testBit 1 (j - c) = false := Nat.testBit_lt_two_pow (Nat.one_lt_two_pow hk)
+        simp [h, h2, this]
+      · simp [h, h2]
+
+theorem ppSeqBits_testBit (a md l : Nat) : ∀ n j,
+    (ppSeqBits a md l n).testBit j
+      = (decide (j < n) && decide (ppIter a md (2 * l - 1 - j) a % 2 = 1)) := by
+  intro n
+  induction n with
+  | zero => intro j; simp [ppSeqBits]
+  | succ n ih =>
+    intro j
+    rw [ppSeqBits, Nat.testBit_or, ih, testBit_bit_shl _ _ _ (Nat.mod_lt _ (by decide))]
+    by_cases h : j = n
+    · subst h; simp
+    · by_cases h2 : j < n
+      · have : j < n + 1 := by omega
+        simp [h, h2, this]
+      · have : ¬ j < n + 1 := by omega
+        simp [h, h2, this]
+
+theorem ppMinPolySeq_testBit (a md : Nat) : ∀ c t s, (∀ j, j < c → s.testBit j = false) → ∀ j,
+    (ppMinPolySeq a md c t s).testBit j
+      = if j < c then decide (ppIter a md (c - j) t % 2 = 1) else s.testBit j := by
+  intro c
+  induction c with
+  | zero => intro t s _ j; simp [ppMinPolySeq]
+  | succ c ih =>
+    intro t s hs j
+    rw [ppMinPolySeq]
+    have hb : pmod (clmul t a) md % 2 < 2 := Nat.mod_lt _ (by decide)
+    have hs' : ∀ j, j < c → (s ||| (pmod (clmul t a) md % 2) <<< c).testBit j = false := by
+      intro j hj
+      rw [Nat.testBit_or, hs j (by omega), testBit_bit_shl _ _ _ hb]
+      have : j ≠ c := by omega
+      simp [this]
+    rw [ih _ _ hs' j]
+    by_cases h1 : j < c
+    · rw [if_pos h1, if_pos (by omega), show c + 1 - j = (c - j) + 1 by omega, ppIter]
+    · rw [if_neg h1]
+      by_cases h2 : j = c
+      · subst h2
+        rw [if_pos (by omega), Nat.testBit_or, hs j (by omega), testBit_bit_shl _ _ _ hb,
+          show j + 1 - j = 1 by omega, ppIter, ppIter]
+        simp
+      · rw [if_neg (by omega), Nat.testBit_or, testBit_bit_shl _ _ _ hb]
+        simp [h2]
+
+/-- the sequence computed by ppMinPolyMod's loop is `ppSeqBits … (2l)` (l ≥ 1) -/
+theorem ppMinPolySeq_eq (a md l : Nat) (hl : 1 ≤ l) :
+    ppMinPolySeq a md (2 * l - 1) a ((a % 2) <<< (2 * l - 1)) = ppSeqBits a md l (2 * l) := by
+  apply Nat.eq_of_testBit_eq
+  intro j
+  have hb : a % 2 < 2 := Nat.mod_lt _ (by decide)
+  rw [ppMinPolySeq_testBit a md (2 * l - 1) a _ (by
+      intro j hj
+      rw [testBit_bit_shl _ _ _ hb]
+      have : j ≠ 2 * l - 1 := by omega
+      simp [this]) j, ppSeqBits_testBit]
+  by_cases h1 : j < 2 * l - 1
+  · rw [if_pos h1]
+    have : j < 2 * l := by omega
+    simp [this]
+  · rw [if_neg h1, testBit_bit_shl _ _ _ hb]
+    by_cases h2 : j = 2 * l - 1
+    · subst h2
+      have : 2 * l - 1 < 2 * l := by omega
+      simp [this, ppIter]
+    · have : ¬ j < 2 * l := by omega
+      simp [h2, this]
+
+theorem ppSeqBits_lt (a md l n : Nat) : ppSeqBits a md l n < 2 ^ n := by
+  apply Nat.lt_pow_two_of_testBit
+  intro i hi
+  rw [ppSeqBits_testBit]
+  have : ¬ i < n := by omega
+  simp [this]
+
+/-- a^k in GF(2)[x] -/
+def cpow (a : Nat) : Nat → Nat
+  | 0 => 1
+  | k + 1 => clmul (cpow a k) a
+
+theorem pmod_clmul_left {md : Nat} (hmd : md ≠ 0) (x a : Nat) :
+    pmod (clmul (pmod x md) a) md = pmod (clmul x a) md := by
+  apply pmod_cong hmd
+  refine ⟨clmul (pdivmod x md).1 a, ?_⟩
+  rw [← xor_clmul, pmod_eq x md hmd, Nat.xor_assoc, Nat.xor_comm _ x, ← Nat.xor_assoc, Nat.xor_self,
+    Nat.zero_xor, clmul_assoc, clmul_comm md a, ← clmul_assoc]
+
+theorem ppIter_eq {md : Nat} (hmd : md ≠ 0) (a : Nat) : ∀ k t, 1 ≤ k →
+    ppIter a md k t = pmod (clmul t (cpow a k)) md := by
+  intro k
+  induction k with
+  | zero => intro t h; omega
+  | succ k ih =>
+    intro t _
+    rw [ppIter]
+    by_cases hk : k = 0
+    · subst hk
+      simp [ppIter, cpow, one_clmul]
+    · rw [ih _ (by omega), pmod_clmul_left hmd, clmul_assoc, cpow, clmul_comm a (cpow a k)]
+
+/-- for a reduced a the j-th iterate is a^{j+1} mod md -/
+theorem ppIter_pow {md a : Nat} (hmd : md ≠ 0) (ha : a < 2 ^ md.log2) (j : Nat) :
+    ppIter a md j a = pmod (cpow a (j + 1)) md := by
+  by_cases hj : j = 0
+  · subst hj
+    simp [ppIter, cpow, one_clmul, pmod_of_lt hmd ha]
+  · rw [ppIter_eq hmd a j a (by omega), cpow, clmul_comm]
+
+
 end Bee2V.C05.PpModOps
